@@ -83,10 +83,11 @@ def shared_proposal(v):
                     if sa.child_sas:
                         first_tx[id(sa)] = bytes(w.expire('A', bytes(sa.child_sas[0].inbound_spi), False))
             w.now += 3
+            swept = {id(s_): d for k, s_, d in w.sweep('A') if k == 'retransmit'}       # both retransmissions are due: one visit of the loop's timer section
             for sa in sas[:2]:
                 if first_tx.get(id(sa)) is None:
                     continue
-                again = w.timer('A', sa, 'check_retransmission_timer')
+                again = swept.get(id(sa))
                 n += 1
                 if again is None or bytes(again) != first_tx[id(sa)]:
                     v.violation(f'{variant}: with two IKE_SAs of one connection the retransmission differs from the request first sent',
